@@ -274,7 +274,9 @@ func exec(t []string) string {
 	case t[0] == "f.state" && len(t) == 1:
 		return fState()
 	case t[0] == "e2e.fetch" && len(t) == 3:
-		return e2eFetch(atoi(t[1]), atoi(t[2]))
+		return e2eFetch(atoi(t[1]), atoi(t[2]), false)
+	case t[0] == "e2e.fetchq" && len(t) == 3:
+		return e2eFetch(atoi(t[1]), atoi(t[2]), true)
 	}
 	return "bad-op"
 }
